@@ -147,8 +147,11 @@ fn strip_traces(text: &str) -> String {
 
 /// canonical text of a real run: marker lines ` | `-joined, ` || `, result
 fn canon_real(stdout: &str, r: &Result<Result<String, String>, String>) -> String {
-    let clean = strip_traces(stdout);
-    let markers: Vec<&str> = clean.split('\n').filter(|l| l.starts_with('#')).collect();
+    // every line a program prints is a marker line; anything else (e.g. a rendered stack trace
+    // inside a caught value, finding F-C04-10) is kept as `!line` so that it shows up as a difference
+    let junk: Vec<String> = stdout.split('\n').filter(|l| !l.is_empty() && !l.starts_with('#')).map(|l| format!("!{}", l)).collect();
+    let lines: Vec<String> = stdout.split('\n').filter(|l| l.starts_with('#')).map(|l| l.to_string()).chain(junk.into_iter().take(3)).collect();
+    let markers: Vec<&str> = lines.iter().map(|l| l.as_str()).collect();
     let res = match r {
         Ok(Ok(v)) => format!("ok {}", v),
         Ok(Err(e)) => format!("err {}", strip_traces(e).split('\n').next().unwrap_or("")),
@@ -537,9 +540,10 @@ impl<'a> MG<'a> {
         self.tag
     }
     fn lit(&mut self) -> E {
-        match self.rng.below(4) {
+        match self.rng.below(6) {
             0 => E::Lit(Lit::Int(self.rng.range(0, 9))),
             1 => E::Lit(Lit::Null),
+            2 => E::Lit(Lit::Rec(if self.rng.chance(1, 2) { vec![(0, 1)] } else { vec![(1, 2), (0, 3)] })),
             _ => E::Lit(Lit::Str(self.rng.range(0, 3) as u32)),
         }
     }
@@ -569,7 +573,11 @@ impl<'a> MG<'a> {
                 let n_typed = self.rng.weighted(&[3, 2, 1]);
                 let mut cs = vec![];
                 for i in 0..=n_typed {
-                    let ty = if i == n_typed { None } else { Some(*self.rng.pick(&[Ty::String, Ty::Number, Ty::Null])) };
+                    let ty = if i == n_typed {
+                        if self.rng.chance(1, 4) { Some(Ty::Keys(vec![self.rng.below(2) as u32])) } else { None }
+                    } else {
+                        Some(self.rng.pick(&[Ty::String, Ty::Number, Ty::Null, Ty::Map, Ty::Keys(vec![0]), Ty::Keys(vec![1, 0])]).clone())
+                    };
                     let mut cb = vec![E::Emit(1000 + self.t(), None)];
                     if self.rng.chance(2, 3) {
                         if let E::Seq(es) = self.block(depth - 1, avail, in_fn, brk_ok) {
@@ -1172,11 +1180,15 @@ fn sweep_oracle(c: &SweepCase, stdout: &str, r: &Result<Result<String, String>, 
     if let Err(p) = r {
         return Err(format!("panic: {}", p));
     }
-    let clean = strip_traces(stdout);
-    let markers: Vec<&str> = clean.split('\n').filter(|l| l.starts_with('#')).collect();
+    let markers: Vec<&str> = stdout.split('\n').filter(|l| l.starts_with('#')).collect();
     let hits = markers.iter().filter(|m| **m == "#HIT").count();
     if hits == 0 {
         return Ok(false);
+    }
+    if let Some(j) = stdout.split('\n').find(|l| !l.is_empty() && !l.starts_with('#')) {
+        // the catch marker prints the caught value: a runtime error must be caught as its plain
+        // message, whatever native/callback levels it crossed (F-C04-10)
+        return Err(format!("output that is not a marker line (caught value is not the plain message?): {:?}", j));
     }
     if hits > 1 {
         return Err(format!("the fault point was executed {} times (execution went on after it raised)", hits));
@@ -1369,16 +1381,21 @@ enum Lit {
     Bool(bool),
     Int(i64),
     Str(u32),
+    /// map literal `{k<a>: i, …}`
+    Rec(Vec<(u32, i64)>),
 }
 
-#[derive(Clone, Copy, Debug, PartialEq)]
+#[derive(Clone, Debug, PartialEq)]
 enum Ty {
     Null,
     Bool,
     Number,
     String,
     List,
+    Map,
     Obj(u32),
+    /// not a type: the map pattern `{k<a> as v<x>, k<b> as v<x+1>, …}` of a catch argument
+    Keys(Vec<u32>),
 }
 
 impl Ty {
@@ -1389,7 +1406,9 @@ impl Ty {
             Ty::Number => "Number".into(),
             Ty::String => "String".into(),
             Ty::List => "List".into(),
+            Ty::Map => "Map".into(),
             Ty::Obj(c) => format!("K{}", c),
+            Ty::Keys(ks) => format!("keys:{}", ks.iter().map(|k| k.to_string()).collect::<Vec<_>>().join(",")),
         }
     }
     fn parse(s: &str) -> Option<Ty> {
@@ -1399,6 +1418,8 @@ impl Ty {
             "Number" => Ty::Number,
             "String" => Ty::String,
             "List" => Ty::List,
+            "Map" => Ty::Map,
+            _ if s.starts_with("keys:") => Ty::Keys(s[5..].split(',').filter_map(|k| k.parse().ok()).collect()),
             _ => Ty::Obj(s.strip_prefix('K')?.parse().ok()?),
         })
     }
@@ -1507,6 +1528,7 @@ impl Lit {
             Lit::Bool(b) => format!("b{}", *b as u8),
             Lit::Int(i) => format!("i{}", i),
             Lit::Str(n) => format!("s{}", n),
+            Lit::Rec(fs) => sx_list("rec", &fs.iter().map(|(k, v)| format!("({} {})", k, v)).collect::<Vec<_>>()),
         }
     }
 }
@@ -1583,7 +1605,7 @@ impl E {
             E::Try(b, cs, f) => {
                 let cs: Vec<String> = cs
                     .iter()
-                    .map(|(t, x, e)| format!("(c {} {} {})", t.map(|t| t.name()).unwrap_or("any".into()), x, e.sexp()))
+                    .map(|(t, x, e)| format!("(c {} {} {})", t.as_ref().map(|t| t.name()).unwrap_or("any".into()), x, e.sexp()))
                     .collect();
                 let mut s = format!("(try {} {}", b.sexp(), sx_list("catches", &cs));
                 if let Some(f) = f {
@@ -1709,7 +1731,21 @@ fn bx(x: &Sx) -> Option<Box<E>> {
 fn parse_e(x: &Sx) -> Option<E> {
     let (h, a) = x.head()?;
     Some(match (h, a.len()) {
-        ("lit", 1) => E::Lit(parse_lit(a[0].atom()?)?),
+        ("lit", 1) => match &a[0] {
+            Sx::A(s) => E::Lit(parse_lit(s)?),
+            l => {
+                let (h, fs) = l.head()?;
+                if h != "rec" {
+                    return None;
+                }
+                let mut v = vec![];
+                for f in fs {
+                    let p = f.list()?;
+                    v.push((p.first()?.num()?, p.get(1)?.atom()?.parse().ok()?));
+                }
+                E::Lit(Lit::Rec(v))
+            }
+        },
         ("var", 1) => E::Var(a[0].num()?),
         ("gvar", 1) => E::GVar(a[0].num()?),
         ("assign", 2) => E::Assign(a[0].num()?, bx(&a[1])?),
@@ -1869,9 +1905,46 @@ fn direct_brk(e: &E) -> bool {
     }
 }
 
+/// locals read somewhere in the expression
+fn reads_of(e: &E, out: &mut std::collections::HashSet<u32>) {
+    fn go(e: &E, out: &mut std::collections::HashSet<u32>) {
+        match e {
+            E::Var(x) => {
+                out.insert(*x);
+            }
+            E::Lit(_) | E::GVar(_) | E::MkObj(_) | E::Emit(_, None) | E::Brk | E::Cont | E::Fault(_) => {}
+            E::Assign(_, x) | E::Emit(_, Some(x)) | E::Ret(x) | E::Throw(x) | E::Native(_, _, x) => go(x, out),
+            E::MkList(es) | E::Seq(es) | E::Call(_, es) | E::EmitI(_, es) => es.iter().for_each(|x| go(x, out)),
+            E::Index(a, b) | E::Push(a, b) | E::Bin(_, a, b) | E::ForL(_, a, b) => {
+                go(a, out);
+                go(b, out)
+            }
+            E::SetIdx(a, b, c) | E::If(a, b, c) => {
+                go(a, out);
+                go(b, out);
+                go(c, out)
+            }
+            E::ForG(_, _, es, b) => {
+                es.iter().for_each(|x| go(x, out));
+                go(b, out)
+            }
+            E::Try(b, cs, f) => {
+                go(b, out);
+                cs.iter().for_each(|c| go(&c.2, out));
+                if let Some(f) = f {
+                    go(f, out)
+                }
+            }
+        }
+    }
+    go(e, out)
+}
+
 struct Renderer<'a> {
     out: String,
     tmp: u32,
+    /// catch variables of the definition being rendered that nothing reads
+    unread: std::collections::HashSet<u32>,
     brk_val: Vec<bool>,
     opts: &'a RenderOpts,
 }
@@ -1897,6 +1970,7 @@ impl<'a> Renderer<'a> {
                 }
             }
             Lit::Str(n) => format!("'str{}'", n),
+            Lit::Rec(fs) => format!("{{{}}}", fs.iter().map(|(k, v)| format!("k{}: {}", k, v)).collect::<Vec<_>>().join(", ")),
         }
     }
 
@@ -1987,9 +2061,15 @@ impl<'a> Renderer<'a> {
             self.line(ind, head);
             self.block(ind + 1, b);
             for (ty, x, body) in cs {
+                // a catch variable that nothing reads is written `_` (the model binds it, nobody looks)
+                let name = if self.unread.contains(x) { "_".to_string() } else { format!("v{}", x) };
                 match ty {
-                    Some(t) => self.line(ind, &format!("catch v{}: {}", x, t.name())),
-                    None => self.line(ind, &format!("catch v{}", x)),
+                    Some(Ty::Keys(ks)) => {
+                        let ents: Vec<String> = ks.iter().enumerate().map(|(i, k)| format!("k{} as v{}", k, x + i as u32)).collect();
+                        self.line(ind, &format!("catch {{{}}}", ents.join(", ")))
+                    }
+                    Some(t) => self.line(ind, &format!("catch {}: {}", name, t.name())),
+                    None => self.line(ind, &format!("catch {}", name)),
                 }
                 self.block(ind + 1, body);
             }
@@ -2166,6 +2246,57 @@ impl<'a> Renderer<'a> {
     }
 }
 
+/// catch variables (plain or typed, not map patterns) that no expression of the definition reads
+fn unread_catch_vars(bodies: &[&E]) -> std::collections::HashSet<u32> {
+    let mut reads = Default::default();
+    for b in bodies {
+        reads_of(b, &mut reads);
+    }
+    let mut out = std::collections::HashSet::new();
+    fn go(e: &E, reads: &std::collections::HashSet<u32>, out: &mut std::collections::HashSet<u32>) {
+        if let E::Try(_, cs, _) = e {
+            for (ty, x, _) in cs {
+                if !matches!(ty, Some(Ty::Keys(_))) && !reads.contains(x) {
+                    out.insert(*x);
+                }
+            }
+        }
+    }
+    for b in bodies {
+        collect_tries(b, &mut |t| go(t, &reads, &mut out));
+    }
+    out
+}
+
+fn collect_tries(e: &E, f: &mut dyn FnMut(&E)) {
+    match e {
+        E::Lit(_) | E::Var(_) | E::GVar(_) | E::MkObj(_) | E::Emit(_, None) | E::Brk | E::Cont | E::Fault(_) => {}
+        E::Assign(_, x) | E::Emit(_, Some(x)) | E::Ret(x) | E::Throw(x) | E::Native(_, _, x) => collect_tries(x, f),
+        E::MkList(es) | E::Seq(es) | E::Call(_, es) | E::EmitI(_, es) => es.iter().for_each(|x| collect_tries(x, f)),
+        E::Index(a, b) | E::Push(a, b) | E::Bin(_, a, b) | E::ForL(_, a, b) => {
+            collect_tries(a, f);
+            collect_tries(b, f)
+        }
+        E::SetIdx(a, b, c) | E::If(a, b, c) => {
+            collect_tries(a, f);
+            collect_tries(b, f);
+            collect_tries(c, f)
+        }
+        E::ForG(_, _, es, b) => {
+            es.iter().for_each(|x| collect_tries(x, f));
+            collect_tries(b, f)
+        }
+        E::Try(b, cs, fin) => {
+            f(e);
+            collect_tries(b, f);
+            cs.iter().for_each(|c| collect_tries(&c.2, f));
+            if let Some(x) = fin {
+                collect_tries(x, f)
+            }
+        }
+    }
+}
+
 impl Prog {
     fn class_has_ops(&self, c: usize) -> bool {
         self.classes[c].add.is_some() || self.classes[c].lt.is_some()
@@ -2184,7 +2315,7 @@ impl Prog {
     }
 
     fn render(&self, opts: &RenderOpts) -> String {
-        let mut r = Renderer { out: String::new(), tmp: 0, brk_val: vec![], opts };
+        let mut r = Renderer { out: String::new(), tmp: 0, unread: Default::default(), brk_val: vec![], opts };
         r.line(0, "nul_ = null");
         r.line(0, "k1_ = |a| a");
         for g in 0..self.nglobals {
@@ -2198,6 +2329,7 @@ impl Prog {
         for (i, d) in self.defs.iter().enumerate() {
             let params: Vec<String> = (0..d.nparams).map(|p| format!("v{}", p)).collect();
             r.line(0, &format!("f{} = |{}|", i, params.join(", ")));
+            r.unread = unread_catch_vars(&d.bodies());
             if d.is_gen {
                 for (pre, y) in &d.segs {
                     if !matches!(pre, E::Seq(es) if es.is_empty()) {
@@ -2218,6 +2350,7 @@ impl Prog {
                 self.render_class(&mut r, c);
             }
         }
+        r.unread = unread_catch_vars(&[&self.main]);
         r.block(0, &self.main);
         r.out
     }
@@ -2323,8 +2456,16 @@ fn shape_walk(e: &E, s: Shape) -> Option<&'static str> {
                 sb.fin_region = true;
                 sb.loops_since_fin = 0;
             }
-            if cs.is_empty() || cs.last().unwrap().0.is_some() || cs[..cs.len() - 1].iter().any(|c| c.0.is_none()) {
-                return Some("envelope:catch chain must be typed* then one untyped");
+            let last_is_pattern = matches!(cs.last().map(|c| &c.0), Some(Some(Ty::Keys(_))));
+            if cs.is_empty()
+                || (cs.last().unwrap().0.is_some() && !last_is_pattern)
+                || cs[..cs.len() - 1].iter().any(|c| c.0.is_none())
+            {
+                return Some("envelope:catch chain must be (typed | map pattern)* then one untyped or map pattern");
+            }
+            if last_is_pattern && (has_fin || s.no_escape) {
+                // the pattern may not match: the error leaves this try (and skips its finally)
+                return Some("F-C04-1:error can escape a catch block of a try with finally");
             }
             if let Some(w) = sub(b, sb) {
                 return Some(w);
@@ -2379,6 +2520,7 @@ fn feat_walk(e: &E, depth: u32, f: &mut Features) {
                 E::Lit(Lit::Int(_)) => "throw:number",
                 E::Lit(Lit::Null) => "throw:null",
                 E::Lit(Lit::Bool(_)) => "throw:bool",
+                E::Lit(Lit::Rec(_)) => "throw:map",
                 E::MkObj(_) => "throw:object",
                 _ => "throw:variable",
             });
@@ -2454,6 +2596,12 @@ fn feat_walk(e: &E, depth: u32, f: &mut Features) {
             f.try_depth = f.try_depth.max(depth + 1);
             if cs.len() > 1 {
                 f.kinds.insert("typed-catch");
+            }
+            if cs.iter().any(|c| matches!(c.0, Some(Ty::Keys(_)))) {
+                f.kinds.insert("catch:map-pattern");
+            }
+            if matches!(cs.last().map(|c| &c.0), Some(Some(Ty::Keys(_)))) {
+                f.kinds.insert("catch:map-pattern-last");
             }
             if fin.is_some() {
                 f.kinds.insert("finally");
@@ -2809,6 +2957,8 @@ struct Frame {
     c1: u32,
     c2: u32,
     lv: u32,
+    ign: u32, // catch variable that nothing reads (rendered `_`)
+    pk: u32,  // first of three locals bound by map patterns
     objs: Vec<u32>, // main only: locals holding objects with operators
     n: u32,
     is_main: bool,
@@ -2832,8 +2982,10 @@ impl Frame {
             c1: base + 3,
             c2: base + 4,
             lv: base + 5,
-            objs: (0..n_objs).map(|i| base + 6 + i).collect(),
-            n: base + 6 + n_objs,
+            ign: base + 6,
+            pk: base + 7,
+            objs: (0..n_objs).map(|i| base + 10 + i).collect(),
+            n: base + 10 + n_objs,
             is_main: false,
             role,
         }
@@ -2947,7 +3099,8 @@ impl<'a> G<'a> {
     }
 
     fn throw_value(&mut self, fr: &Frame) -> E {
-        match self.rng.weighted(&[5, 2, 1, 1, 3, 1]) {
+        match self.rng.weighted(&[5, 2, 1, 1, 3, 1, 3]) {
+            6 => E::Lit(self.rec_lit()),
             0 => E::Lit(Lit::Str(self.rng.range(0, 4) as u32)),
             1 => E::Lit(Lit::Int(self.rng.range(0, 99))),
             2 => E::Lit(Lit::Null),
@@ -2961,6 +3114,33 @@ impl<'a> G<'a> {
             }
             _ => E::Var(*self.rng.pick(&fr.int_vars())),
         }
+    }
+
+    /// a map literal over the key atoms k0..k2 (1–3 entries, source order random)
+    fn rec_lit(&mut self) -> Lit {
+        let mut ks: Vec<u32> = vec![0, 1, 2];
+        let n = 1 + self.rng.below(3);
+        while ks.len() > n {
+            let i = self.rng.below(ks.len());
+            ks.remove(i);
+        }
+        if self.rng.chance(1, 2) {
+            ks.reverse();
+        }
+        Lit::Rec(ks.into_iter().map(|k| (k, self.rng.range(0, 9))).collect())
+    }
+
+    fn key_pattern(&mut self) -> Ty {
+        let mut ks: Vec<u32> = vec![0, 1, 2];
+        let n = 1 + self.rng.below(2);
+        while ks.len() > n {
+            let i = self.rng.below(ks.len());
+            ks.remove(i);
+        }
+        if self.rng.chance(1, 2) {
+            ks.reverse();
+        }
+        Ty::Keys(ks)
     }
 
     fn fault(&mut self, fr: &Frame, cx: Cx) -> E {
@@ -3043,7 +3223,7 @@ impl<'a> G<'a> {
         E::Seq(v)
     }
 
-    fn catch_chain(&mut self, fr: &Frame, cx: Cx, value: bool) -> Vec<(Option<Ty>, u32, E)> {
+    fn catch_chain(&mut self, fr: &Frame, cx: Cx, value: bool, last_pattern_ok: bool) -> Vec<(Option<Ty>, u32, E)> {
         let n_typed = self.rng.weighted(&[5, 3, 2, 1]);
         let mut tys = vec![Ty::String, Ty::Number, Ty::Null, Ty::Bool, Ty::List];
         for c in self.err_classes.iter().chain(self.op_classes.iter()) {
@@ -3051,15 +3231,42 @@ impl<'a> G<'a> {
             tys.push(Ty::Obj(*c));
         }
         tys.push(Ty::String);
+        tys.push(Ty::Map);
         let mut out = vec![];
         for i in 0..=n_typed {
-            let ty = if i == n_typed { None } else { Some(*self.rng.pick(&tys)) };
-            let var = if self.rng.chance(1, 2) { fr.c1 } else { fr.c2 };
+            // catch argument: id / typed id / `_` / `_: T` / map pattern (any position, also last
+            // when `last_pattern_ok`: then the error may leave the try)
+            let ty = if i == n_typed {
+                if last_pattern_ok && self.rng.chance(1, 5) { Some(self.key_pattern()) } else { None }
+            } else if self.rng.chance(1, 4) {
+                Some(self.key_pattern())
+            } else {
+                Some(self.rng.pick(&tys).clone())
+            };
+            let is_pat = matches!(ty, Some(Ty::Keys(_)));
+            let var = if is_pat {
+                fr.pk
+            } else if self.rng.chance(1, 5) {
+                fr.ign
+            } else if self.rng.chance(1, 2) {
+                fr.c1
+            } else {
+                fr.c2
+            };
             let ct = {
                 self.ctag += 1;
                 1000 + self.ctag
             };
-            let mut body = vec![E::Emit(ct, Some(Box::new(E::Var(var))))];
+            let mut body = if var == fr.ign {
+                vec![E::Emit(ct, None)]
+            } else {
+                vec![E::Emit(ct, Some(Box::new(E::Var(var))))]
+            };
+            if let Some(Ty::Keys(ks)) = &ty {
+                for i in 1..ks.len() as u32 {
+                    body.push(E::Emit(ct, Some(Box::new(E::Var(var + i)))));
+                }
+            }
             let inner = self.block(fr, cx, 0, 2, None);
             if let E::Seq(es) = inner {
                 body.extend(es);
@@ -3067,7 +3274,7 @@ impl<'a> G<'a> {
             if self.rng.chance(1, 3) {
                 body.push(self.observe(fr));
             }
-            if !cx.no_escape && self.rng.chance(1, 7) {
+            if !cx.no_escape && var != fr.ign && self.rng.chance(1, 7) {
                 // re-throw the caught value
                 body.push(E::Throw(Box::new(E::Var(var))));
             }
@@ -3121,7 +3328,7 @@ impl<'a> G<'a> {
             cc.in_loop_ok = false;
             cc.no_escape = true;
         }
-        let cs = self.catch_chain(fr, cc, value);
+        let cs = self.catch_chain(fr, cc, value, !has_fin && !cx.no_escape);
         let fin = if has_fin {
             let ft = {
                 self.ftag += 1;
@@ -3346,6 +3553,10 @@ impl<'a> G<'a> {
             E::Assign(fr.c1, Box::new(E::Lit(Lit::Null))),
             E::Assign(fr.c2, Box::new(E::Lit(Lit::Null))),
             E::Assign(fr.lv, Box::new(E::Lit(Lit::Int(0)))),
+            E::Assign(fr.ign, Box::new(E::Lit(Lit::Null))),
+            E::Assign(fr.pk, Box::new(E::Lit(Lit::Int(0)))),
+            E::Assign(fr.pk + 1, Box::new(E::Lit(Lit::Int(0)))),
+            E::Assign(fr.pk + 2, Box::new(E::Lit(Lit::Int(0)))),
         ];
         if fr.is_main {
             for (i, o) in fr.objs.iter().enumerate() {
